@@ -61,6 +61,10 @@ RepViol(ev, rp, obs) ==
   \cup (IF rp.tbl THEN {} ELSE {V(ev, "wf-tables", rp.s, "")})
   \cup (IF rp.val = "" THEN {} ELSE {V(ev, "validate", rp.s, rp.val)})
   \cup (IF rp.s \in bad THEN {} ELSE {V(ev, cl, rp.s, "") : cl \in SizeClauses(rp, W(U, obs[rp.s]))})
+  \* the bitmap's own cardinality / emptiness must agree with what it contains (a representation with duplicate
+  \* keys or wrong cached counts denotes the right SET of integers but answers wrongly)
+  \cup (IF rp.s \in bad \/ NEq(rp.gc, W(U, obs[rp.s])) THEN {} ELSE {V(ev, "cardinality-mismatch", rp.s, rp.gc)})
+  \cup (IF rp.s \in bad \/ rp.emp = (obs[rp.s] = {}) THEN {} ELSE {V(ev, "isempty-mismatch", rp.s, "")})
 
 \* structural sharing discipline over the last logged representation of all slots (latent: a
 \* behavioural witness is what counts, see DESIGN 6)
